@@ -198,13 +198,15 @@ class Interp:
         m = CONST_INT.match(s)
         if m: return BV(int(m.group(1)), INT_BITS[m.group(2)])
         body = s[6:]
+        if re.match(r'^-?[\d\.eE+-]+f(32|64)$', body): return Agg('f64', [body])
         if body == 'true': return True
         if body == 'false': return False
         if body == '()': return UNIT
         if body.startswith("'"): return BV(parse_char(body[1:-1]), 32)
         if body.startswith('"'):
             return StrV([BV(b, 8) for b in eval(body).encode('utf-8')])
-        mnum = re.match(r'^core::num::<impl (\w+)>::(MAX|MIN)$', body)
+        mnum = re.match(r'^(?:core::num::<impl )?(\w+?)>?::(MAX|MIN)$', body)
+        if mnum and mnum.group(1) not in INT_BITS: mnum = None
         if mnum:
             t = mnum.group(1); b = INT_BITS[t]
             if t.startswith('i'): return BV(((1 << (b-1)) - 1) if mnum.group(2) == 'MAX' else (1 << (b-1)), b)
@@ -300,6 +302,7 @@ class Interp:
            'AddWithOverflow', 'SubWithOverflow', 'MulWithOverflow', 'Shl', 'Shr', 'Div', 'Rem'}
 
     def binop(self, ctx, op, a, b, signed=False):
+        if isinstance(a, Agg) and a.name == 'f64' or isinstance(b, Agg) and b.name == 'f64': return Agg('f64', [(op, a, b)])
         if isinstance(a, bool) or z3.is_bool(a) if not isinstance(a, BV) else False:
             if op == 'Eq': return a == b if isinstance(a, bool) and isinstance(b, bool) else (z3.BoolVal(a) if isinstance(a, bool) else a) == (z3.BoolVal(b) if isinstance(b, bool) else b)
             if op == 'Ne': return a != b if isinstance(a, bool) and isinstance(b, bool) else (z3.BoolVal(a) if isinstance(a, bool) else a) != (z3.BoolVal(b) if isinstance(b, bool) else b)
@@ -358,6 +361,9 @@ class Interp:
             if isinstance(v, bool): return not v
             if isinstance(v, BV): return BV(~v.z() if not v.conc() else ~v.e, v.bits)
             return z3.Not(v)
+        if m and m.group(1) == 'Neg':
+            v = self.operand(ctx, m.group(2), frame)
+            return BV((-v.e) if v.conc() else (-v.e), v.bits)
         if m and m.group(1) == 'discriminant':
             g, _ = self.place_ref(ctx, parse_place(m.group(2)), frame)
             return BV(g().vidx, 64)
@@ -408,7 +414,11 @@ class Interp:
                 fields = [self.operand(ctx, f, frame) for f in split_top(inner)]
             else:
                 fields = []
-            return Agg(ty, fields, var, self.variant_index(ty, var))
+            try:
+                return Agg(ty, fields, var, self.variant_index(ty, var))
+            except Unsupported:
+                if mv.group(3): return Agg(ty + '::' + var, fields)   # tuple struct constructor
+                raise
         raise Unsupported('rvalue ' + s)
 
     def variant_index(self, ty, var):
